@@ -37,6 +37,8 @@ func TestReplay(t *testing.T) {
 		key, msg = replayC07Env(t, f.Script)
 	case "TestC08Real":
 		key, msg = replayReal(f.Script)
+	case "TestC14Real":
+		key, msg = replayArm(f.Script)
 	default:
 		t.Fatalf("no replay handler for %s", f.Test)
 	}
